@@ -20,8 +20,10 @@ CONSTANTS Scoped, NItems, MaxCalls, MaxDepth, Charsets
 
 AllCharsets == {"latin1", "utf-8", "cp1252", "shift_jis", "utf-16", "utf-16-le", "iso2022_jp", "gb2312", "euc_kr"}
 FewCharsets == {"latin1", "utf-8", "shift_jis"}
-LoadFaults == {"truncate", "bad_data_byte", "undecodable_text", "unknown_charset"}
-SaveFaults == {"non_integer_time", "unencodable_text", "unknown_charset", "realtime_message"}
+\* "interrupt": the call is left by an exception that is not an Exception (KeyboardInterrupt,
+\* SystemExit, a cancellation) raised by the file object or by a lazily produced track
+LoadFaults == {"truncate", "bad_data_byte", "undecodable_text", "unknown_charset", "interrupt"}
+SaveFaults == {"non_integer_time", "unencodable_text", "unknown_charset", "realtime_message", "interrupt"}
 
 VARIABLES charset, stack, hist, ncalls
 vars == <<charset, stack, hist, ncalls>>
